@@ -33,25 +33,28 @@ Definition frame_tr (t : nat) (s s' : state) : Prop :=
   lost s' = lost s /\
   (In RConnLost (ready s') -> In RConnLost (ready s) \/ tr_closing s' = true) /\
   (closed s = true -> closed s' = true) /\
-  (c_side c = Server -> close_wait s' = close_wait s \/ closed s' = true).
+  (c_side c = Server -> close_wait s' = close_wait s \/ closed s' = true) /\
+  (c_side c = Client -> cw_leak s' = cw_leak s).
 
 Lemma frame_refl t s : frame_tr t s s.
 Proof. unfold frame_tr. repeat split; auto. Qed.
 
 Lemma frame_trans t s1 s2 s3 : frame_tr t s1 s2 -> frame_tr t s2 s3 -> frame_tr t s1 s3.
 Proof.
-  unfold frame_tr. intros (A1 & A2 & A3 & A4 & A5 & A6 & A7) (B1 & B2 & B3 & B4 & B5 & B6 & B7).
+  unfold frame_tr. intros (A1 & A2 & A3 & A4 & A5 & A6 & A7 & A8) (B1 & B2 & B3 & B4 & B5 & B6 & B7 & B8).
   repeat split; auto.
   - intros x Hx. rewrite B3, A3; auto.
   - congruence.
   - intros H. destruct (B5 H) as [H'|H']; [|auto]. destruct (A5 H') as [H''|H'']; auto.
   - intros Hs. destruct (B7 Hs) as [B7'|B7']; [|auto]. destruct (A7 Hs) as [A7'|A7']; [left; congruence|right; auto].
+  - intros Hs. rewrite B8, A8; auto.
 Qed.
 
 Ltac fr_simple :=
   try match goal with |- frame_tr ?t ?s _ => tryif is_var s then idtac else (let x := fresh "x" in generalize s; intro x) end;
   unfold frame_tr, pc_of; repeat split; cbn; intros; auto;
-  try match goal with |- context [Nat.eqb ?x ?t] => destruct (Nat.eqb_spec x t); [congruence|reflexivity] end.
+  try match goal with |- context [Nat.eqb ?x ?t] => destruct (Nat.eqb_spec x t); [congruence|reflexivity] end;
+  try congruence.
 
 Lemma fr_upd_task s t f : (forall k, t_pc (f k) = t_pc k) -> forall t0, frame_tr t0 s (upd_task s t f).
 Proof.
@@ -122,7 +125,8 @@ Record Inv_tr (s : state) : Prop := {
   inv_lost : lost s = true -> tr_closing s = true;
   inv_queued : In RConnLost (ready s) -> tr_closing s = true;
   inv_cw : c_side c = Server -> closed s = false -> close_wait s = None;
-  inv_closed : closed s = true -> good s
+  inv_closed : closed s = true -> good s;
+  inv_leak : c_side c = Client -> cw_leak s = false
 }.
 
 Lemma good_at_good t s : good_at t s -> good s.
@@ -134,7 +138,7 @@ Lemma inv_step t s s' :
   (closed s' = true -> closed s = false \/ closer (pc_of s t) = true -> good_at t s') ->
   Inv_tr s'.
 Proof.
-  intros [I1 I2 I3 I4] (F1 & F2 & F3 & F4 & F5 & F6 & F7) G. constructor.
+  intros [I1 I2 I3 I4 I5] (F1 & F2 & F3 & F4 & F5 & F6 & F7 & F8) G. constructor; [| | | |intros Hs; rewrite F8; auto].
   - rewrite F4. auto.
   - intros H. destruct (F5 H); auto.
   - intros Hs Hc. destruct (F7 Hs) as [F7'|F7']; [|congruence]. rewrite F7'. apply I3; auto.
@@ -283,7 +287,7 @@ Qed.
 Definition cwB (s : state) : Prop := c_side c = Server -> closed s = false -> close_wait s = None.
 Lemma cwB_frame t s s' : cwB s -> frame_tr t s s' -> cwB s'.
 Proof.
-  unfold cwB. intros H (_ & _ & _ & _ & _ & F6 & F7) Hs Hc.
+  unfold cwB. intros H (_ & _ & _ & _ & _ & F6 & F7 & _) Hs Hc.
   destruct (F7 Hs) as [E|E]; [|congruence]. rewrite E. apply H; auto.
   destruct (closed s) eqn:Ec; auto. rewrite F6 in Hc; auto.
 Qed.
@@ -487,8 +491,8 @@ Proof.
         -- destruct (c_side c); [destruct (t_tmo _)|]; exact G.
 Qed.
 
-Lemma inv_lost_ok s : Inv_tr s -> lost_ok s. Proof. intros [H _ _ _]. exact H. Qed.
-Lemma inv_cwB s : Inv_tr s -> cwB s. Proof. intros [_ _ H _]. exact H. Qed.
+Lemma inv_lost_ok s : Inv_tr s -> lost_ok s. Proof. intros [H _ _ _ _]. exact H. Qed.
+Lemma inv_cwB s : Inv_tr s -> cwB s. Proof. intros [_ _ H _ _]. exact H. Qed.
 
 Lemma run_wake_inv s t : Inv_tr s -> Inv_tr (run_wake c s t).
 Proof.
@@ -571,7 +575,7 @@ Lemma conn_lost_inv s : Inv_tr s -> tr_closing s = true -> Inv_tr (conn_lost c s
 Proof.
   intros I T. unfold conn_lost. destruct (lost s); [exact I|].
   assert (I1 : Inv_tr (set_lost s true)).
-  { destruct I as [I1 I2 I3 I4]. constructor; cbn; auto. }
+  { destruct I as [I1 I2 I3 I4 I5]. constructor; cbn; auto. }
   destruct (c_side c).
   - apply inv_same with (s := set_lost s true); [exact I1|intros; apply fr_feed_eof|]. unfold feed_eof. cbn. rewrite closed_release_waiter. reflexivity.
   - destruct (proto_close _); [exact I1|].
@@ -643,7 +647,7 @@ Proof.
   - inversion Hs; subst. apply inv_same with (s := s); [exact I|intros; apply fr_enq; discriminate|reflexivity].
   - inversion Hs; subst. destruct (tr_closing s) eqn:T; [exact I|].
     apply conn_lost_inv; [|reflexivity].
-    destruct I as [I1 I2 I3 I4]. constructor; cbn; auto. intros _. left. reflexivity.
+    destruct I as [I1 I2 I3 I4 I5]. constructor; cbn; auto. intros _. left. reflexivity.
   - destruct (Nat.ltb t ntasks); inversion Hs; subst. unfold cancel_task. cbn zeta.
     destruct (task_blocked _).
     + apply inv_same with (s := s); [exact I| |rewrite closed_fut_done; reflexivity].
@@ -656,7 +660,7 @@ Proof.
   - destruct (ready s) as [|r rest] eqn:E; inversion Hs; subst.
     assert (I0 : Inv_tr (set_ready s rest)).
     { apply inv_same with (s := s); [exact I| |reflexivity]. intros. fr_simple. left. rewrite E. right. assumption. }
-    apply run_item_inv; [exact I0|]. intros ->. cbn. destruct I as [_ I2 _ _]. apply I2. rewrite E. left. reflexivity.
+    apply run_item_inv; [exact I0|]. intros ->. cbn. destruct I as [_ I2 _ _ _]. apply I2. rewrite E. left. reflexivity.
 Qed.
 
 Lemma init_inv : Inv_tr (init c).
@@ -676,8 +680,17 @@ Theorem closed_implies_transport_closed c s :
   (forall t, closer c (t_pc (tasks s t)) = false) ->
   tr_closing s = true.
 Proof.
-  intros R Hc Hl Hn. destruct (reach_inv_tr c s R) as [_ _ _ I4].
+  intros R Hc Hl Hn. destruct (reach_inv_tr c s R) as [_ _ _ I4 _].
   destruct (I4 Hc) as [H|[H|[x H]]]; [exact H|congruence|]. unfold pc_of in H. rewrite Hn in H. discriminate.
 Qed.
 
 (* the flag is a server-only escape *)
+
+(* the escape exists on the server only *)
+Theorem client_no_leak c s : c_side c = Client -> reach c s -> cw_leak s = false.
+Proof. intros Hs R. destruct (reach_inv_tr c s R) as [_ _ _ _ I5]. auto. Qed.
+
+Theorem client_closed_implies_transport_closed c s :
+  c_side c = Client -> reach c s -> closed s = true ->
+  (forall t, closer c (t_pc (tasks s t)) = false) -> tr_closing s = true.
+Proof. intros Hs R Hc Hn. apply (closed_implies_transport_closed c s R Hc (client_no_leak c s Hs R) Hn). Qed.
